@@ -280,8 +280,10 @@ def effSpell (pc : Bool) (sp0 : Spell) : Spell := if pc then .typing else sp0
 
 def typeOfNode (env : Env) (pc : Bool) (sp0 : Spell) (a : Ann) (v : Val) : Raw :=
   let sp := effSpell pc sp0
+  if !requiredArgsOk (typeName sp) 1 then .raisedPed else
   if sp == .pep585 && v.hasAsdict then .ok false else
   if sp == .pep585 && !(originConvertible "type" && convOk a) then .raisedOther else
+  if !requiredArgsOk "Type" 1 then .raisedPed else
   if genericChecksOrigin && !env.sub (v.typeOf env) env.typeCls then .ok false else
   if !originIs "typing.Type" "_instancecheck_type" then .raisedOther else
   (match a with
